@@ -3,7 +3,7 @@
 From Coq Require Import String.
 From Coq Require Import List Strings.Byte NArith ZArith Bool.
 Require Import Bytes Show Tables Codec Norm CleanPath Chain.
-Require Serve Rot.
+Require Serve Rot Ser.
 Import ListNotations.
 
 Definition arg (args : list bs) (i : nat) : bs := nth i args [].
@@ -27,7 +27,9 @@ Definition entries : list (bs * (list bs -> bs)) := [
   (B "run_chain", fun a => run_chain a);
   (B "serve_trace", fun a => Serve.serve_trace (arg a 0));
   (B "sort_shape", fun a => Rot.sort_shape (arg a 0));
-  (B "spec_shape", fun a => Rot.spec_shape (arg a 0))
+  (B "spec_shape", fun a => Rot.spec_shape (arg a 0));
+  (B "append_header_line", fun a => Ser.append_header_line (arg a 0) (arg a 1));
+  (B "nl2sp", fun a => Ser.nl2sp (arg a 0))
 ].
 
 Fixpoint lookup (cmd : bs) (l : list (bs * (list bs -> bs))) : option (list bs -> bs) :=
